@@ -45,7 +45,7 @@ impl<'de> Deserialize<'de> for ResponseDataLength {
         let value = u32::deserialize(deserializer)?;
 
         // Check the value
-        if value >= ResponseDataLength::MIN.get() {
+        if value >= ResponseDataLength::MIN.get() && value <= ResponseDataLength::MAX.get() {
             Ok(ResponseDataLength(value))
         } else {
             Err(D::Error::custom(format!(
@@ -107,7 +107,7 @@ impl TryFrom<ciborium::Value> for NfcOptions {
                             .map_err(|_| Error::CborError)?
                             .try_into()
                             .map_err(|_| Error::CborError)?;
-                        if v < ResponseDataLength::MIN.get() {
+                        if v < ResponseDataLength::MIN.get() || v > ResponseDataLength::MAX.get() {
                             return Err(Error::InvalidNfcResponseDataLengthError);
                         }
                         Ok(ResponseDataLength(v))
